@@ -140,6 +140,9 @@ func loadProgram(repo, verif string, patterns []string) (*Program, error) {
 			return nil, ContractError{fmt.Sprintf("%s:%d: contract for %q does not match any function of package %s", c.File, c.Line, c.Key, c.Pkg)}
 		}
 	}
+	if err := p.checkTypeInvImmutable(); err != nil {
+		return nil, err
+	}
 	// library specs
 	libs, _ := filepath.Glob(filepath.Join(verif, "contracts", "lib", "*.spec"))
 	sort.Strings(libs)
@@ -281,4 +284,91 @@ func (p *Program) closureContract(lit *ast.FuncLit) (*Contract, []string) {
 		}
 	}
 	return c, names
+}
+
+// checkTypeInvImmutable: fields mentioned in a typeinv must never be assigned outside composite
+// literals anywhere in the module (the invariant is assumed, not re-established).
+func (p *Program) checkTypeInvImmutable() error {
+	fields := map[string]map[string]bool{} // pkg#Type -> field names
+	var collect func(x *SExpr, into map[string]bool)
+	collect = func(x *SExpr, into map[string]bool) {
+		if x == nil {
+			return
+		}
+		if x.Kind == "field" && x.Args[0].Kind == "ident" && x.Args[0].Name == "this" {
+			into[x.Name] = true
+		}
+		for _, a := range x.Args {
+			collect(a, into)
+		}
+	}
+	for k, invs := range p.specs.TypeInvs {
+		fields[k] = map[string]bool{}
+		for _, inv := range invs {
+			collect(inv, fields[k])
+		}
+	}
+	if len(fields) == 0 {
+		return nil
+	}
+	for path, pk := range p.pkgs {
+		if !strings.HasPrefix(path, modulePrefix) {
+			continue
+		}
+		var bad error
+		for _, f := range pk.Syntax {
+			ast.Inspect(f, func(n ast.Node) bool {
+				var lhs []ast.Expr
+				switch a := n.(type) {
+				case *ast.AssignStmt:
+					lhs = a.Lhs
+				case *ast.IncDecStmt:
+					lhs = []ast.Expr{a.X}
+				}
+				for _, l := range lhs {
+					sel, ok := ast.Unparen(l).(*ast.SelectorExpr)
+					if !ok {
+						continue
+					}
+					s := pk.TypesInfo.Selections[sel]
+					if s == nil || s.Kind() != types.FieldVal {
+						continue
+					}
+					rt := s.Recv()
+					if pt, ok := rt.Underlying().(*types.Pointer); ok {
+						rt = pt.Elem()
+					}
+					if named, ok := types.Unalias(rt).(*types.Named); ok && named.Obj().Pkg() != nil {
+						k := named.Obj().Pkg().Path() + "#" + named.Obj().Name()
+						if fields[k][sel.Sel.Name] {
+							bad = ContractError{fmt.Sprintf("%s: field %s.%s is assigned but a typeinv relies on it being immutable",
+								p.fset.Position(l.Pos()), named.Obj().Name(), sel.Sel.Name)}
+						}
+					}
+				}
+				return true
+			})
+		}
+		if bad != nil {
+			return bad
+		}
+	}
+	return nil
+}
+
+// namedType finds a named type by "pkgname.Type".
+func (p *Program) namedType(key string) types.Type {
+	i := strings.Index(key, ".")
+	if i < 0 {
+		return nil
+	}
+	pk := p.byName[key[:i]]
+	if pk == nil {
+		return nil
+	}
+	tn, ok := pk.Scope().Lookup(key[i+1:]).(*types.TypeName)
+	if !ok {
+		return nil
+	}
+	return tn.Type()
 }
